@@ -1,6 +1,6 @@
 (** C10 - Command-line scripts compile to exactly the operations written, or to nothing. *)
 From Coq Require Import ZArith List Bool Lia String.
-From VD Require Import Base.Bytes Base.Text Model.Server Proofs.ServerP Model.Shlex Model.Command Proofs.CommandP.
+From VD Require Import Base.Bytes Base.Text Model.Server Proofs.ServerP Model.Shlex Model.Command Proofs.CommandP Proofs.CommandErrP.
 Import ListNotations.
 Open Scope Z_scope.
 
@@ -34,6 +34,35 @@ Theorem C10_reject_format : forall fuel f delay file rest acc,
   compile (S fuel) f delay (w "capture" :: file :: rest) acc = CErr (EFormat (extension file)) acc.
 Proof. exact reject_capture_format. Qed.
 Print Assumptions C10_reject_format.
+
+(** "A script containing such an error executes nothing": after ANY number of well-formed
+    commands, an unknown word (or a capture file with an unsupported extension), whatever
+    follows it, makes the whole compilation an error - never the operations of the prefix.
+    ([CErr]'s second field is what had been registered when the error was met; the caller
+    gets the error, not a list.) *)
+Theorem C10_unknown_word_anywhere : forall cmds f fuel bad rest,
+  Forall wf_scmd cmds -> (List.length cmds < fuel)%nat ->
+  is_command bad = false -> f bad = None ->
+  compile fuel f false (flat_map render cmds ++ bad :: rest) [] = CErr (EUnknown bad) (flat_map denote cmds).
+Proof. exact unknown_word_after_prefix. Qed.
+Print Assumptions C10_unknown_word_anywhere.
+
+Theorem C10_bad_capture_anywhere : forall cmds f fuel file rest,
+  Forall wf_scmd cmds -> (List.length cmds < fuel)%nat ->
+  supported_format (extension file) = false ->
+  compile fuel f false (flat_map render cmds ++ w "capture" :: file :: rest) [] =
+    CErr (EFormat (extension file)) (flat_map denote cmds).
+Proof. exact bad_capture_after_prefix. Qed.
+Print Assumptions C10_bad_capture_anywhere.
+
+Theorem C10_error_scripts_yield_no_operations : forall cmds f fuel bad file rest ops,
+  Forall wf_scmd cmds -> (List.length cmds < fuel)%nat ->
+  (is_command bad = false /\ f bad = None ->
+     compile fuel f false (flat_map render cmds ++ bad :: rest) [] <> COk ops) /\
+  (supported_format (extension file) = false ->
+     compile fuel f false (flat_map render cmds ++ w "capture" :: file :: rest) [] <> COk ops).
+Proof. exact error_scripts_yield_no_operations. Qed.
+Print Assumptions C10_error_scripts_yield_no_operations.
 
 (** the near misses of the repaired defect (fix c0c8a41): substrings of "drag" are not commands *)
 Example C10_drag_substrings :
